@@ -49,6 +49,8 @@ def attribute_exception(tb, src, default):
         prop = "C19"
     elif base.startswith("manager/"):
         prop = "C13"
+    elif base.endswith("threshold.py"):
+        prop = "C10"  # per-label bound lists of the filter
     return prop, "%s in %s:%s" % ("%s", base, func)
 
 
